@@ -211,9 +211,48 @@ func checkC16(r *Run) {
 			}
 		}
 	}
+	// (run last: a violation damages process-wide tables)
+	// operation sequence: a caller builds a request line by appending to the slice Name() hands out, then classifies
+	// again; appending to a returned name must never change what later lookups return (the tables are process-wide)
+	for m := sipsp.MUndef + 1; m < sipsp.MOther; m++ {
+		for _, suffix := range []string{" ", " sip:p.example.com SIP/2.0\r\n", strings.Repeat("x", 100)} {
+			line := append(m.Name(), suffix...)
+			_ = line
+			for name, want := range mthTable {
+				r.St.Evals++
+				if got := sipsp.GetMethodNo([]byte(name)); got != want || string(want.Name()) != name {
+					r.Col.add(&Violation{Property: "C16", Site: "SIPMethod.Name", Rule: "name-roundtrip", Class: "after-append-to-returned-name",
+						Detail: fmt.Sprintf("after append(%s.Name(), %q...): GetMethodNo(%q)=%d want %d, Name()=%q", mthName(m), suffix, name, got, want, want.Name()),
+						Case:   mkCase("C16append", "SIPMethod.Name", nil, []byte(suffix), nil)})
+				}
+			}
+		}
+	}
+}
+
+func mthName(m sipsp.SIPMethod) string {
+	for n, x := range mthTable {
+		if x == m {
+			return n
+		}
+	}
+	return fmt.Sprint(int(m))
 }
 
 func init() {
+	// replays the whole append sequence (the damage, if any, is to process-wide tables and stays)
+	replayers["C16append"] = func(prop string, c *Case) []*Violation {
+		var vs []*Violation
+		for m := sipsp.MUndef + 1; m < sipsp.MOther; m++ {
+			_ = append(m.Name(), c.input()...)
+			for name, want := range mthTable {
+				if got := sipsp.GetMethodNo([]byte(name)); got != want || string(want.Name()) != name {
+					vs = append(vs, &Violation{Property: prop, Site: "SIPMethod.Name", Rule: "name-roundtrip", Class: "after-append-to-returned-name", Detail: fmt.Sprintf("GetMethodNo(%q)=%d want %d", name, got, want), Case: c})
+				}
+			}
+		}
+		return vs
+	}
 	replayers["C16"] = func(prop string, c *Case) []*Violation {
 		p, _ := c.Extra["parser"].(bool)
 		vs, _ := evalC16(c.input(), p)
